@@ -235,7 +235,8 @@ PROP = Prop(
     pid="C18",
     props_v="theories/Props/C18.v",
     theory_files=["theories/Queue/Threads.v", "theories/Queue/ThreadsCorr.v", "theories/Queue/ThreadsProofs.v",
-                  "theories/Queue/Wakeup.v", "theories/Queue/WakeupProofs.v"],
+                  "theories/Queue/Wakeup.v", "theories/Queue/WakeupProofs.v",
+                  "theories/Queue/WakeupFine.v", "theories/Queue/WakeupFineProofs.v"],
     streams=[Stream(name="loop", imports=["Queue.PQ", "Queue.PosPQ", "Queue.Threads", "Queue.ThreadsCorr"],
                     run="threads_run", input_type="list (Z * Q) * top * nat * (Z * Q)",
                     gen=gen_loop, impl=impl_loop, to_coq=to_coq_loop, oracle=oracle, nontrivial=nontrivial,
@@ -245,6 +246,12 @@ PROP = Prop(
                     shrink=W.shrink,
                     corr_name="call_soon_threadsafe wake-up protocol, line by line against the loop thread "
                               "(Queue/Wakeup.v)"),
+             Stream(name="wakefine", imports=["Queue.Wakeup", "Queue.WakeupFine"], run="wake_run_f",
+                    input_type="winput",
+                    gen=W.gen_fine, impl=W.impl, to_coq=W.to_coq, oracle=W.oracle, nontrivial=W.nontrivial,
+                    shrink=W.shrink,
+                    corr_name="wake-up protocol with the loop thread single-stepped through the source lines of "
+                              "_drain_threadsafe_inbox as well (Queue/WakeupFine.v)"),
              Stream(name="strike", imports=["Queue.PQ", "Queue.PosPQ", "Queue.Threads", "Queue.ThreadsCorr"],
                     run="threads_run", input_type="list (Z * Q) * top * nat * (Z * Q)",
                     gen=gen, impl=impl, to_coq=to_coq, oracle=oracle_class, nontrivial=nontrivial,
@@ -255,7 +262,10 @@ PROP = Prop(
          "thread during that evaluation; non-trivial: >= 2 entries.  Stream `wake`: 1..3 real foreign threads "
          "single-stepped line by line through call_soon_threadsafe against the loop thread single-stepped through "
          "{drain, select+run} (enumerated: one complete submission at every loop phase x the second submission "
-         "stopped after every line x 0..5 loop steps; both submissions interleaved line-wise; random schedules)",
+         "stopped after every line x 0..5 loop steps; both submissions interleaved line-wise; random schedules).  Stream `wakefine`: the same with the "
+         "loop thread also single-stepped through every source line of _drain_threadsafe_inbox (1..3 complete "
+         "submissions in the inbox x a late submission, whole or line by line, after every number of drain lines; "
+         "random schedules)",
     signature=signature,
     assumptions=["thread switches inside heapq's C functions can only happen inside the Python-level PriEntry.__lt__ "
                  "(CPython holds the GIL otherwise); deque.append/popleft are atomic under the GIL (scheduling loops)",
